@@ -252,6 +252,16 @@ def replay(case):
         check(case)
 
 
+def unshare(node):
+    """Every input of a stage is its own object here: the per-path call logs need one instrumented function per path."""
+    node = {k: v for k, v in node.items() if k != 'share'}
+    if 'ins' in node:
+        node['ins'] = [unshare(c) for c in node['ins']]
+    elif 'in' in node:
+        node['in'] = unshare(node['in'])
+    return node
+
+
 @st.composite
 def st_case(draw):
     ctx = gen.Ctx(modes=('pickle',))
@@ -259,6 +269,7 @@ def st_case(draw):
     if draw(st.integers(0, 3)):
         src = {'op': 'map', 'fn': draw(st.integers(0, 3)), 'in': src}  # an instrumented stage right above the source
     node = draw(gen.st_program(ctx, LAZY, max_stages=5, source=src))
+    node = unshare(node)
     m = ev(node)
     if m.taint or m.iter_taint or m.int_taint:
         # duplicate keys: key operations may refuse (C03); demand is studied on pipelines that answer
